@@ -189,6 +189,69 @@ fn hll_composite_multisets(ctx: &Ctx) -> u64 {
     t
 }
 
+/// Continuity / monotonicity sweep of the composite (out-of-order) estimator: for each lg_k
+/// and each pair of adjacent register values (v, v+1), the k+1 register arrays with j slots
+/// at v+1 and k-j at v take the raw estimate through a whole octave in steps of relative
+/// size about 1/(2k); across the octaves v = 1..=7 this crosses every branch boundary of the
+/// estimator (start of the interpolation table, every table knot, the end of the table and
+/// the extrapolation beyond it). The estimate must increase with j and no single step may
+/// be out of proportion to the step of the raw sum.
+fn hll_composite_continuity(ctx: &Ctx) -> u64 {
+    let lgs: Vec<u8> = ctx.tier.pick(vec![8, 10, 12], vec![7, 8, 9, 10, 11, 12, 13, 14, 16]);
+    let jobs: Vec<(u8, u8)> = lgs.iter().flat_map(|&l| (1u8..=7).map(move |v| (l, v))).collect();
+    let worst = std::sync::Mutex::new(0.0f64);
+    let n: u64 = jobs
+        .par_iter()
+        .map(|&(lg_k, v)| {
+            let k = 1usize << lg_k;
+            let mut prev: Option<(f64, f64)> = None;
+            let mut cnt = 0u64;
+            let stride = if lg_k > 12 { 1usize << (lg_k - 12) } else { 1 };
+            let mut j = 0usize;
+            while j <= k {
+                let regs: Vec<u8> = (0..k).map(|s| if s < j { v + 1 } else { v }).collect();
+                let (ka, kb) = hllm::kxq_of(&regs);
+                let cur_min = if j == k { v + 1 } else { v };
+                let img = spec_hll::encode_array(lg_k, 8, &regs, cur_min, 0.0, ka, kb, EncOpts { compact: false, ooo: true, lg_arr: 0, extra_flags: 0 });
+                let raw = 1.0 / (ka + kb);
+                cnt += 1;
+                match catch(|| HllSketch::deserialize(&img).map(|s| s.estimate())) {
+                    Ok(Ok(e)) => {
+                        if let Some((pe, praw)) = prev {
+                            let rel_e = e / pe - 1.0;
+                            let rel_raw = raw / praw - 1.0;
+                            let rp = || json!({"kind":"hll_composite_sweep","lg_k":lg_k,"low_value":v,"slots_at_high_value":j});
+                            if !(e > pe) {
+                                ctx.violation("hll.bounds.composite.nonmonotone", &format!("lg_k {lg_k}: raising one register from {v} to {} ({j} slots raised) moves the out-of-order estimate from {pe} to {e}", v + 1), rp());
+                            } else if rel_e > 3.0 * rel_raw + 1e-12 {
+                                ctx.violation("hll.bounds.composite.jump", &format!("lg_k {lg_k}: with {j} slots at {} and the rest at {v} the out-of-order estimate jumps by {:.4}% while the raw estimate moves by {:.4}% ({pe} -> {e})", v + 1, 100.0 * rel_e, 100.0 * rel_raw), rp());
+                            }
+                            let mut w = worst.lock().unwrap();
+                            if rel_e / rel_raw > *w {
+                                *w = rel_e / rel_raw;
+                            }
+                        }
+                        prev = Some((e, raw));
+                    }
+                    Ok(Err(e)) => {
+                        ctx.violation("hll.bounds.composite.rejected", &format!("spec image rejected: {e}"), json!({"kind":"hll_composite_sweep","lg_k":lg_k,"low_value":v,"slots_at_high_value":j}));
+                        break;
+                    }
+                    Err(p) => {
+                        ctx.violation(&format!("panic|{}", p.site_key()), &format!("composite estimate panicked: {}", p.message), json!({"kind":"hll_composite_sweep","lg_k":lg_k,"low_value":v,"slots_at_high_value":j}));
+                        break;
+                    }
+                }
+                j += stride;
+            }
+            cnt
+        })
+        .sum();
+    ctx.note(format!("HLL composite continuity sweep: largest (relative estimate step)/(relative raw step) observed {:.3} (bound 3)", *worst.lock().unwrap()));
+    ctx.count("HLL composite estimator: continuity sweep states (lg_k x octave x slots raised)", n);
+    n
+}
+
 // ------------------------------------------------------------------ CPC ICON and confidence tables
 
 fn cpc_wrapper_image(lg_k: u8, c: u32, hip: Option<(f64, f64)>) -> Vec<u8> {
@@ -668,6 +731,9 @@ pub fn run(ctx: &Ctx) -> i32 {
         }),
         Box::new(|| {
             total.fetch_add(hll_composite_multisets(ctx), Ordering::Relaxed);
+        }),
+        Box::new(|| {
+            total.fetch_add(hll_composite_continuity(ctx), Ordering::Relaxed);
         }),
         Box::new(|| {
             total.fetch_add(cpc_icon(ctx), Ordering::Relaxed);
